@@ -50,11 +50,13 @@ def tier_consts(ctx):
             "KMat": 11, "KVar": 5, "Seed": ctx.seed}
 
 
-def run_lsq(ctx, cases, kind="plain", maxfail=300):
+def run_lsq(ctx, cases, kind="plain", maxfail=300, extra_env=None):
     bdir = vlib.build(kind, ["drv_lsq"])
     path = os.path.join(ctx.outdir, "lsq-cases.txt")
     write_cases(cases, path)
     env = vlib.ASAN_ENV if kind == "asan" else None
+    if extra_env:
+        env = dict(env or {}, **extra_env)
     rc, out = vlib.sh([os.path.join(bdir, "drv_lsq"), path, str(maxfail)], timeout=3000, env=env)
     recs = []
     for line in out.splitlines():
